@@ -12,7 +12,9 @@ STD_METHODS = [
     {'name': 'perr2', 'sig': [], 'ctx': ('none',), 'body': ('rpc', -32001, 'x', '<unset>')},
     {'name': 'nul', 'sig': [], 'ctx': ('none',), 'body': ('ret', None)},
     {'name': 'slow', 'sig': [('a', 'PK', True)], 'ctx': ('none',), 'body': ('ret', 'slow'), 'yields': 3},
-    {'name': 'ctxm', 'sig': [('c', 'PK', False), ('a', 'PK', True)], 'ctx': ('name', 'c'), 'body': ('env',)},
+    {'name': 'ctxm', 'sig': [('c', 'PK', False), ('a', 'PK', True)], 'ctx': ('name', 'c'), 'body': ('env',), 'share': 'CTXM'},
+    # the SAME function object exposed a second time without the context designation
+    {'name': 'ctxplain', 'sig': [('c', 'PK', False), ('a', 'PK', True)], 'ctx': ('none',), 'body': ('env',), 'share': 'CTXM'},
     # a typed library class raised with its code and message overridden on the instance (ServerError documents -32000..-32099)
     {'name': 'stor', 'sig': [], 'ctx': ('none',), 'body': ('rpc', -32050, 'storage offline', '<unset>', 'ServerError')},
     # a class-based view whose constructor raises: the request fails before the method is bound (-32603)
@@ -22,7 +24,7 @@ STD_CFG = {'methods': STD_METHODS, 'mws': [], 'ehs': [], 'max_batch': None}
 
 J = [A, '2.0', '1.0', 2.0, None]
 I = [A, None, 0, 1, -1, 2 ** 64, '', 'a', '1', True, 1.5, [], {}]
-M = [A, 'one', 'two', 'boom', 'perr', 'perr2', 'nul', 'ctxm', 'vbad', 'stor', 'nosuch', '', 1, None]
+M = [A, 'one', 'two', 'boom', 'perr', 'perr2', 'nul', 'ctxm', 'ctxplain', 'vbad', 'stor', 'nosuch', '', 1, None]
 P = [A, [], [1], [1, 2], {}, {'a': 1}, {'a': 1, 'b': 2}, {'b': 1}, None, 1, 'x', [None], [[1, {'k': 'v'}]], [1, 2, 3], {'c': 9}]
 
 
@@ -43,7 +45,7 @@ def valid_element(rnd, notif_p=0.25, bad_p=0.08):
     if r < bad_p:
         return rnd.choice([1, None, 'x', [], {}, True, obj(*[rnd.choice(X) for X in (J, I, M, P)])])
     i = A if rnd.random() < notif_p else rnd.choice([None, 0, 1, 2, 3, -1, '1', 'a', '', 2 ** 64])
-    return obj('2.0', i, rnd.choice(['one', 'one', 'two', 'boom', 'perr', 'perr2', 'nul', 'ctxm', 'nosuch', 'vbad', 'stor', 'boom']),
+    return obj('2.0', i, rnd.choice(['one', 'one', 'two', 'boom', 'perr', 'perr2', 'nul', 'ctxm', 'ctxplain', 'ctxm', 'nosuch', 'vbad', 'stor', 'boom']),
                rnd.choice([A, [], [1], {'a': 2}, [1, 2], {'b': 1}, {'a': 1, 'b': None}]))
 
 
@@ -88,6 +90,9 @@ def special_batches():
     for ids in ([7, 'x', 7, 'x'], ['7', 7, '7', 7], [0, '', 0, ''], [1, 'a', 'a', 1], [1, 1, 2, 2], ['a', 'b', 'a', 'b']):
         out.append([el('one', i, [1]) for i in ids])
     out.append([el('stor', 1), el('boom', 2)])
+    # one function under two registrations (with / without the context designation), in both orders
+    out.append([el('ctxplain', 1, [5, 6]), el('ctxm', 2, [7]), el('ctxplain', 3, {'c': 1})])
+    out.append([el('ctxm', 1, [7]), el('ctxplain', 2, [5, 6]), el('ctxm', 3, {'a': 1}), el('ctxm', 4, {'c': 9})])
     out.append([el('boom', 1), el('stor', 2), el('stor'), el('perr', 3), el('perr2', 4)])
     out.append([el('stor', 1), el('nul', 2), el('boom', 3), el('vbad', 4)])
     return [json.dumps(b) for b in out]
